@@ -22,6 +22,11 @@
 (*         obeys the documented sentence of each setting -- written        *)
 (*         WITHOUT the pipeline operators, so that it checks the           *)
 (*         composition rather than repeating it)                           *)
+(*   and AttributionsAgree: the two instantiated modules that look at the  *)
+(*   shared registry (ClientsCore for the settings, IgnoreAnonCore for the *)
+(*   ignore switches) attribute every request to the same client.          *)
+(* With Fault # "none" the composition is mis-wired on purpose (negative   *)
+(* configurations): the invariants must then fail.                         *)
 (* The two ledgers lq / ls are ghosts: the queries since the log was last  *)
 (* cleared / the statistics last reset, each with the configuration it met *)
 (* and the outcome it got.                                                 *)
